@@ -520,7 +520,7 @@ def _():
 
 
 @bounded("encrypted-documents-round-trip", props=["C10"],
-         bound="quick: 60 documents over {RC4-40 R2, RC4-40/128 R3, V2 and AESV2 R4 with EncryptMetadata on/off, AESV3 R5, R6} x password pairs (empty, ASCII, latin-1, > 32 bytes) x permission words x non-zero generation numbers x strings, arrays of strings, streams, an object stream (R>=4); opened with user, owner and a wrong password; thorough: 6000")
+         bound="quick: 60 documents over {RC4-40 R2, RC4-40/128 R3, V2 and AESV2 R4 with EncryptMetadata on/off, AESV3 R5, R6} x password pairs (empty, ASCII, latin-1, > 32 bytes, > 127 bytes of UTF-8) x permission words x non-zero generation numbers x strings, arrays of strings, streams, an object stream (R>=4); opened with user, owner and a wrong password; thorough: 6000")
 def _(tier, seed):
     import io, random
     from specs import pdfcrypt as PC
@@ -532,8 +532,9 @@ def _(tier, seed):
     failures, evals, distinct = [], 0, set()
     for _ in range(n):
         kind = rng.choice(["R2", "R3-40", "R3-128", "R4-V2", "R4-AES", "R4-AES-nometa", "R5", "R6"])
-        user = rng.choice([b"", b"user", b"p\xe4ss", b"u" * 40])
-        owner = rng.choice([b"owner", b"", b"o" * 35, b"\xf6wner"])
+        # the last two of each are longer than 127 bytes once encoded as UTF-8 (revisions 5/6 keep the first 127 *bytes*, which cuts a character in two)
+        user = rng.choice([b"", b"user", b"p\xe4ss", b"u" * 40, b"\xe9" * 100, b"a" + b"\xfc" * 90])
+        owner = rng.choice([b"owner", b"", b"o" * 35, b"\xf6wner", b"\xe8" * 70, b"ab" + b"\xe5" * 126])
         if owner == user or owner == b"":
             owner = owner + b"1"
         P = rng.choice([0xFFFFFFFC, 0xFFFFF0C0, 0xFFFFFFE4, 0xFFFFF8FC, 0xFFFFFFEC])
@@ -609,3 +610,42 @@ def _(tier, seed):
         if len(failures) >= 3:
             break
     return dict(evaluations=evals, distinct=len(distinct), failures=failures[:3])
+
+
+@bounded("v5-password-preparation-keeps-127-bytes-of-utf8", props=["C10"],
+         bound="revisions 5 and 6 x 600 (quick) / 20000 (thorough) seeded passwords of 0..140 characters drawn from 1-, 2-, 3- and 4-byte UTF-8 characters (plus every length 120..135 of each single character class); "
+               "the real _normalize_password against: UTF-8 of the (revision 6: SASLprep'd, by the repository's own saslprep, trusted here) password cut to 127 bytes")
+def _(tier, seed):
+    import random
+    rng = random.Random(seed + 1010)
+    H = pd.PDFStandardSecurityHandlerV5
+    sasl = real_module("pdfminer._saslprep").saslprep
+    alpha = ["a", "Z", "7", "\xe9", "\xdf", "\u20ac", "\u4e2d", "\U0001f600"]
+    pws = [ch * n for ch in ("a", "\xe9", "\u20ac", "\U0001f600") for n in range(120, 136)]
+    pws += ["", "a" * 127, "a" * 126 + "\xe9", "a" * 125 + "\u20ac" + "b"]
+    for _ in range(600 if tier == "quick" else 20000):
+        k = rng.choice([0, 1, 5, 30, 63, 64, 100, 126, 127, 128, 140, rng.randint(0, 140)])
+        pws.append("".join(rng.choice(alpha) for _ in range(k)))
+    failures, evals = [], 0
+    for r in (5, 6):
+        h = H.__new__(H)
+        h.r = r
+        for p in pws:
+            evals += 1
+            try:
+                want = ((sasl(p) if (r == 6 and p) else p)).encode("utf-8")[:127]
+            except Exception as e:  # noqa: BLE001  SASLprep rejects the string (unassigned code point, ...): the same rejection is expected
+                want = type(e).__name__
+            try:
+                got = h._normalize_password(p)
+            except Exception as e:  # noqa: BLE001
+                got = type(e).__name__
+            if isinstance(got, str) or isinstance(want, str):
+                if got != want:
+                    failures.append(dict(r=r, password=p, got=str(got), want=str(want)))
+                continue
+            if got != want:
+                failures.append(dict(r=r, password=p, got=got.hex(), want=want.hex()))
+                if len(failures) >= 3:
+                    return dict(evaluations=evals, distinct=len(pws), failures=failures)
+    return dict(evaluations=evals, distinct=len(pws), failures=failures)
